@@ -26,7 +26,7 @@ def run(chk, tier, only_rule=None):
         toon_rules(chk, tier)
     if only_rule in ('R18.3', 'R18.4'): return
     chk.rule('R18.1', 'CSV minimal quoting: trigger set of the encoder is a superset of the characters special in an unquoted field plus the quote character', floor=4)
-    chk.rule('R18.2', 'CSV quote escaping: writer emits quote_escape_char + quote_char exactly for quote_char; parser escaped_value accepts exactly quote_char', floor=4)
+    chk.rule('R18.2', 'CSV quote escaping: writer emits quote_escape_char + quote_char for quote_char and doubles an escape character that differs from the quote character; parser escaped_value accepts exactly those two', floor=6)
     # ---- parser special set in unquoted_string
     pf = [f for f in U.functions(facts, cls='basic_csv_parser', name='parse_some') if f.get('body') is not None]
     chk.require(pf, 'basic_csv_parser::parse_some not found')
@@ -81,11 +81,12 @@ def run(chk, tier, only_rule=None):
         loop = [x for x in A.walk_no_lambda(fn['body']) if x.get('k') == 'ForStmt']
         chk.require(loop, 'escape_string: loop not found')
         pid = {p['n']: p['id'] for p in fn['params']}
-        for c, q, e in ((0x22, 0x22, 0x22), (0x41, 0x22, 0x22), (0x27, 0x27, 0x5c), (0x5c, 0x27, 0x5c)):
+        for c, q, e in ((0x22, 0x22, 0x22), (0x41, 0x22, 0x22), (0x27, 0x27, 0x5c), (0x5c, 0x27, 0x5c), (0x5c, 0x22, 0x5c), (0x41, 0x27, 0x5c)):
             pe = P.PEval(facts, fn, max_depth=1, bind={'c': c})
             pe.exec_stmt(loop[0]['body'], {pid['quote_char']: q, pid['quote_escape_char']: e}, (), 0)
             pushes = [x.args[0] for x in pe.effects if x.kind == 'call' and x.name == 'sink.push_back' and not x.guards]
-            want = [e, q] if c == q else [c]
+            # the quote character is escaped; an escape character that differs from the quote character escapes itself
+            want = [e, q] if c == q else ([e, e] if c == e else [c])
             site = U.site(fn, 'char=%r quote=%r escape=%r' % (chr(c), chr(q), chr(e)))
             if pushes == want: chk.ok('R18.2', site, {'written': pushes})
             else: chk.fail('R18.2', site, fn['file'], loop[0].get('l'), 'escape_string writes %s for %r (quote %r, escape %r), expected %s' % (pushes, chr(c), chr(q), chr(e), want), None, fn['q'])
@@ -103,6 +104,17 @@ def run(chk, tier, only_rule=None):
     site = U.site(pfn, 'escaped_value accepts quote_char')
     if ok: chk.ok('R18.2', site, {'verdict': 'escaped_value: curr_char == quote_char_ -> push'})
     else: chk.fail('R18.2', site, pfn['file'], pfn['l'], 'parser state escaped_value does not restore the quote character', None, pfn['q'])
+    ok2 = False
+    for nd in g.rpo:
+        if nd.kind == 'cond':
+            cmp_ = G.comparison(nd.ast)
+            if cmp_ and cmp_[0] == '==' and A.ref_name(cmp_[1]) == 'curr_char' and A.ref_name(cmp_[2]) == 'quote_escape_char_':
+                under = any(e.src.kind == 'switch' and e.label[0] == 'case' and e.label[1] == inv.get('escaped_value') for a, lab, e in g.guards(nd) if e.src is not None and isinstance(e.label, tuple))
+                te = [e for e in nd.succ if e.label is True]
+                if under and te and any(x.kind == 'stmt' and any(A.callee_name(c) == 'push_back' for c in A.calls_in(x.ast)) for x in G.block_after(te[0])): ok2 = True
+    site = U.site(pfn, 'escaped_value accepts quote_escape_char')
+    if ok2: chk.ok('R18.2', site, {'verdict': 'escaped_value: curr_char == quote_escape_char_ -> push'})
+    else: chk.fail('R18.2', site, pfn['file'], pfn['l'], 'parser state escaped_value does not accept an escaped escape character: with quote_escape_char different from quote_char a field containing the escape character cannot be read back', None, pfn['q'])
 
 
 def r18_7(chk, facts):
@@ -133,10 +145,13 @@ def r18_7(chk, facts):
                 '/'.join(names), 'LF' if 10 in chars else 'CR', 'CR' if 10 in chars else 'LF'), None, fn['q'])
     chk.require(n >= 5, 'R18.7: only %d states with a line terminator case found' % n)
 
+OPTIONAL_CHARS = ('subfield_delimiter_', 'comment_starter_')     # default char_type(): "not set"
+
 def r18_8(chk, facts):
     """An option character that is unset (char_type()) must not match a NUL in the data."""
-    chk.rule('R18.8', 'CSV optional delimiters: every comparison of the current character with subfield_delimiter_ is reached only under '
-                      '`subfield_delimiter_ != char_type()` (the option is off by default; a NUL in a field must not split it)', floor=2)
+    chk.rule('R18.8', 'CSV optional characters: every comparison of the current character with subfield_delimiter_ or comment_starter_ is reached '
+                      'only under `<option> != char_type()` (both are off by default; a NUL in the data must neither split a field nor turn a '
+                      'record into a comment)', floor=3)
     pf = [f for f in U.functions(facts, cls='basic_csv_parser', name='parse_some') if f.get('body') is not None]
     chk.require(pf, 'basic_csv_parser::parse_some not found')
     fn = pf[0]; chk.analysed(fn)
@@ -145,16 +160,18 @@ def r18_8(chk, facts):
     for nd in g.rpo:
         if nd.kind != 'cond': continue
         c = G.comparison(nd.ast)
-        if not c or c[0] != '==' or 'subfield_delimiter_' not in (A.ref_name(c[1]), A.ref_name(c[2])) or 'curr_char' not in A.text(nd.ast): continue
+        if not c or c[0] != '==' or 'curr_char' not in A.text(nd.ast): continue
+        opt = next((o for o in OPTIONAL_CHARS if o in (A.ref_name(c[1]), A.ref_name(c[2]))), None)
+        if opt is None: continue
         n += 1
         ok = False
         for a, lab, e in g.guards(nd):
             c2 = G.comparison(a)
-            if c2 and A.ref_name(c2[1]) == 'subfield_delimiter_' and ((c2[0] == '!=' and lab is True) or (c2[0] == '==' and lab is False)) and not A.ref_name(c2[2]): ok = True
-        site = U.site(fn, 'subfield delimiter test#%d' % n)
+            if c2 and A.ref_name(c2[1]) == opt and ((c2[0] == '!=' and lab is True) or (c2[0] == '==' and lab is False)) and not A.ref_name(c2[2]): ok = True
+        site = U.site(fn, '%s test#%d' % (opt, n))
         if ok: chk.ok('R18.8', site, {'line': nd.line})
-        else: chk.fail('R18.8', site, fn['file'], nd.line, 'parse_some: `curr_char == subfield_delimiter_` at line %s is not guarded by `subfield_delimiter_ != char_type()`: with the option unset a NUL character inside a field starts a sub-field array' % nd.line, None, fn['q'])
-    chk.require(n >= 2, 'R18.8: only %d subfield delimiter comparisons found' % n)
+        else: chk.fail('R18.8', site, fn['file'], nd.line, 'parse_some: `curr_char == %s` at line %s is not guarded by `%s != char_type()`: with the option unset a NUL character in the data is taken for it' % (opt, nd.line, opt), None, fn['q'])
+    chk.require(n >= 3, 'R18.8: only %d optional-character comparisons found' % n)
 
 def r18_6(chk, facts):
     """Type inference applies to unquoted fields only."""
